@@ -240,6 +240,17 @@ def gen_C20(rng, ci, tier):
     out = []
     assert ci.name in MASK_CODECS
     pos5 = [12, 25, 38, 51]
+    # every symbol on its own and as a run (uniform sequences are where whole-sequence shortcuts go wrong)
+    for x in ci.items:
+        s = Script(ci)
+        for n in (1, 2, ci.per_word, ci.per_word + 1, 33):
+            s.add("collect", 0, [x] * n); r = len(s.regs); s.regs.append([x] * n)
+            s.add("tomask", r); m = len(s.regs); s.regs.append(None)
+            s.add("tounmask", r); u = len(s.regs); s.regs.append(None)
+            s.add("codes", SD(m)); s.add("codes", SD(u))
+            s.add("clone", r); c = len(s.regs); s.regs.append(None)
+            s.add("unmask", c); s.add("codes", SD(c)); s.add("mask", c); s.add("codes", SD(c))
+        out.append(s.ops)
     for it in range(scale(tier, 80, 1500)):
         s = Script(ci)
         n = pick_len(rng, ci, scale(tier, 150, 400))
@@ -663,6 +674,11 @@ def gen_C08(rng, ci, tier):
             s.add("toowned", d); s.regs.append(list(codes))
             s.add("kfromseq", K, 0, len(s.regs) - 1)
             s.add("kobs")
+        # unchecked construction (what kmer! expands to) on a slice of exactly K symbols
+        d3 = s.embed(rng, rand_codes(rng, ci, K))
+        s.add("kunsafe", K, w, d3)
+        s.add("kobs")
+        s.add("keq", 0, d3)
         # from text: right length and valid, wrong length, invalid byte
         n2 = rng.choice([K, K, K, K - 1, K + 1])
         txt = [rng.choice(ci.valid_bytes) for _ in range(max(n2, 0))]
@@ -1000,6 +1016,19 @@ def gen_C15(rng, ci, tier, amino_codes=None):
         qs = [list(k) for k, _ in entries[:6]]
         qs += [rand_codes(rng, ci, clen) for _ in range(3)]
         qs += [rand_codes(rng, ci, max(clen - 1, 0)), rand_codes(rng, ci, clen + 1)]
+        # near misses: a key with exactly one symbol changed (first / last / any position)
+        for k, _ in entries[:4]:
+            for pos in {0, len(k) - 1, rng.randrange(len(k))}:
+                for alt in rng.sample(ci.items, min(3, len(ci.items))):
+                    if alt != k[pos]:
+                        q = list(k); q[pos] = alt
+                        qs.append(q)
+        # neighbouring codes of the first symbol (single-bit neighbours)
+        for k, _ in entries[:3]:
+            for bit in range(ci.bits):
+                alt = k[0] ^ (1 << bit)
+                if alt in ci.items:
+                    qs.append([alt] + list(k[1:]))
         for q in qs:
             d = s.embed(rng, q)
             s.add("ctq", d)
@@ -1024,6 +1053,10 @@ def gen_C18(rng, ci, tier):
             r = s.new_from_codes(rng, codes, how="window")
         elif kind == "head":
             h = rng.choice([1, 2, 3, 5, 31, 62, 63, rng.randint(1, 63)])
+            if rng.random() < 0.5:
+                # whole words of content behind a non-zero head
+                codes = rand_codes(rng, ci, (64 // ci.bits if 64 % ci.bits == 0 else 32) * rng.choice([1, 2, 3]))
+            h = h - h % ci.bits if rng.random() < 0.5 and h >= ci.bits else h
             s.add("frombv", h, codes); s.regs.append(list(codes)); r = len(s.regs) - 1
         elif kind == "edited":
             r = s.new_from_codes(rng, codes)
